@@ -6,10 +6,15 @@
      r.args      the argument tuple (sequence of Nested structures)
      r.traverse  the traverse flag
      r.obs.raised   "" or the name of the exception
+     r.colls     per collection i its type, shape of __dask_keys__ and metadata as one string
+                 (array: shape / dtype / chunks / name kind; bag: npartitions / name kind; dataframe:
+                 columns / dtypes / divisions / npartitions; Delayed: the declared length - len() or
+                 "no length" - and what tuple unpacking gives)
      r.obs.res      the returned tuple projected back to structures: container kinds and
                     order as found, computed values as [k |-> "val", c |-> i] (i = the collection
                     whose value, computed alone, it equals; 0 = none), returned collections as
-                    [k |-> "lazy", c, ty, kshape, meta] (an untouched original: [k |-> "coll", c])
+                    [k |-> "lazy", c |-> i, md |-> the same string observed on the returned object]
+                    (an untouched original: [k |-> "coll", c])
 
    TLC decides every record against Collections!Expected.  Leniency that the
    statement leaves: an untouched collection where an equivalent new one is
@@ -19,8 +24,8 @@ EXTENDS Collections, TraceIO
 \* JSON gives sequences; rebuild the set-valued comparison form directly
 RECURSIVE Norm(_)
 Norm(s) ==
-  IF s.k = "coll" THEN Lazy(s.c)
-  ELSE IF s.k \in {"plain", "pstr", "val", "lazy", "other", "broken"} THEN s
+  IF s.k \in {"coll", "lazy"} THEN Lazy(s.c)
+  ELSE IF s.k \in {"plain", "pstr", "val", "other", "broken"} THEN s
   ELSE IF s.k = "set" THEN [k |-> "set", els |-> { Norm(s.xs[i]) : i \in DOMAIN s.xs }]
   ELSE IF s.k \in SeqKinds THEN [k |-> IF s.k = "iter" THEN "list" ELSE s.k, xs |-> [i \in DOMAIN s.xs |-> Norm(s.xs[i])]]
   ELSE IF s.k = "dict" THEN [k |-> "dict", kvs |-> { <<Norm(s.ks[i]), Norm(s.vs[i])>> : i \in DOMAIN s.vs }]
@@ -64,7 +69,7 @@ Bad(r) ==
           \* a returned collection has the type, keys-shape and metadata of the one it replaces and can be computed
           \cup Clause("Lazy", \A i \in DOMAIN got : \A lf \in LeavesOf(got[i]) :
                                  /\ lf.k # "broken"
-                                 /\ (lf.k = "lazy" => (lf.ty /\ lf.kshape /\ lf.meta)))
+                                 /\ (lf.k = "lazy" => (lf.c \in DOMAIN r.colls /\ lf.md = r.colls[lf.c])))
           \* the right value / collection at the right position
           \cup Clause("Values", \A i \in DOMAIN want : Norm(got[i]) = Norm(want[i]))
 
